@@ -982,16 +982,29 @@ class TemplateCompiler:
 				if (cmnd == TAL_OMITTAG and TALElementNameSpace):
 					self.log.warning ("Supressing omit-tag command present on TAL or METAL element")
 				else:
+					if (cmnd in foundCommandsArgs):
+						msg = "TAL command %s is present more than once on the same element." % commandAttName
+						self.log.error (msg)
+						raise TemplateParseException (self.tagAsText (self.currentStartTag), msg)
 					foundCommandsArgs [cmnd] = value
 					foundTALAtts.append (cmnd)
 			elif (commandAttName in self.metal_attribute_map):
 				# It's a METAL attribute
 				cmnd = self.metal_attribute_map [commandAttName]
+				if (cmnd in foundCommandsArgs):
+					msg = "METAL command %s is present more than once on the same element." % commandAttName
+					self.log.error (msg)
+					raise TemplateParseException (self.tagAsText (self.currentStartTag), msg)
 				foundCommandsArgs [cmnd] = value
 				foundMETALAtts.append (cmnd)
 			else:
 				cleanAttributes.append ((att, value))
 		tagProperties ['popFunctionList'] = popTagFuncList
+
+		if (TAL_CONTENT in foundCommandsArgs and TAL_REPLACE in foundCommandsArgs):
+			msg = "tal:content and tal:replace are mutually exclusive."
+			self.log.error (msg)
+			raise TemplateParseException (self.tagAsText (self.currentStartTag), msg)
 
 		# This might be just content
 		if ((len (foundTALAtts) + len (foundMETALAtts)) == 0):
